@@ -80,6 +80,10 @@ CLAIMS = {
    level=("model_checking", "Hostile.tla = Gossip.tla + an adversary delivering every decodable datagram built from op streams of up to 3 syntactically valid operations in arbitrary order (member headers incl. the victim's own id and unknown members, key-values, SetMaxVersion), digests and cluster ids over small values; the decoder (DeltaBuilder::apply_op) and every assertion on the processing path are transcribed; TLC checks no panic, monotonic frontiers and the live/dead set invariants and exports every transition, each replayed on real nodes through the independent codec. Byte level: random, bit-flipped, truncated, extended, spliced and 65 507-byte variants of real datagrams delivered to real nodes in evolving states, judged by the observer specification (no panic, undecodable => state unchanged, monotonic, set invariants).", "6 (C09)"),
    note="defect F-3 (SetMaxVersion after key-values aborts the node) was found by this check and repaired by a fix: commit; u64 values beyond TLC's 32-bit integers are rank-compressed per trace (formulas only compare them); member sets stay far below one datagram",
    technique="TLA+ model checking with adversary (Hostile.tla) + edge replay through independent codec + byte-level fuzz traces judged by observer spec"),
+ "C08": dict(
+   level=("other", "Reference-layout agreement. Wire.tla states the documented layout as arithmetic over message shapes; TLC enumerates 18 757 (quick) shapes over the property's length classes (0, 1, 255, 256, 16383, 16384, 16385, 65535), digests of 0/1/2/2000 entries, IPv4/IPv6, header-only / key-value (every status) / SetMaxVersion / empty-member op mixes, raw framing with thresholds 100/16384/65535 (several uncompressed blocks) and the encoder's own framing. Each shape is realised by the independent codec with three string contents (compressible ASCII, 7-bit random, multi-byte UTF-8); the codec's byte counts are checked against the spec, the real decoder must accept the bytes, consume all of them and announce their exact length, the real encoder must reproduce them for its own framing, and the codec must read the real encoder's output; in addition every datagram emitted by real nodes in random cluster runs (up to ~53 KB, several compressed blocks) is round-tripped through both implementations. Observations are judged by ObserveWire.tla.", "6 (C08)"),
+   note="zstd is trusted; compressed-block contents are not modelled in TLA+ (their framing is); messages are compared through the derived Debug view because message internals are crate-private",
+   technique="TLA+ layout arithmetic over enumerated message shapes (Wire.tla) + independent codec + real decoder/encoder round trips judged by observer spec"),
 }
 PENDING = "specification module for this property not built yet in this revision (see DESIGN.md section 10 build order)"
 
